@@ -91,6 +91,10 @@ DOCS = {
     "slax1": '<a %s xsi:noNamespaceSchemaLocation="sl.xsd"><u>plain</u></a>' % XSI,
     "slax2": '<a %s xsi:noNamespaceSchemaLocation="sl.xsd" xmlns:xs="http://www.w3.org/2001/XMLSchema"><u xsi:type="xs:int">abc</u></a>' % XSI,
     "snohint": '<p:a xmlns:p="u1"><p:b>12</p:b></p:a>',
+    # include / import chain: si.xsd (u4) includes si2.xsd and imports sm.xsd (u5)
+    "sinc": '<r xmlns="u4" xmlns:m="u5" %s xsi:schemaLocation="u4 si.xsd"><item>5</item><m:ext>x</m:ext></r>' % XSI,
+    "sincbad": '<r xmlns="u4" xmlns:m="u5" %s xsi:schemaLocation="u4 si.xsd"><item>five</item><m:ext>x</m:ext><item>6</item></r>' % XSI,
+    "sinc2": '<r xmlns="u4" xmlns:m="u5" %s xsi:schemaLocation="u4 si.xsd u5 sm.xsd"><item>7</item><m:ext/></r>' % XSI,
     "nnohint": '<a><b id="i1">1</b><b id="i2">2</b></a>',
     "nnohintbad": '<a><b id="i1">1</b><b id="i1">1</b><u/></a>',
 }
@@ -109,6 +113,12 @@ EXTS = {
               '<xs:complexType><xs:simpleContent><xs:extension base="xs:int"><xs:attribute name="id" type="xs:ID"/>'
               '</xs:extension></xs:simpleContent></xs:complexType></xs:element></xs:sequence></xs:complexType>'
               '<xs:unique name="ub"><xs:selector xpath="b"/><xs:field xpath="."/></xs:unique></xs:element></xs:schema>',
+    "si.xsd": XS_HEAD + 'targetNamespace="u4" xmlns:t="u4" xmlns:m="u5" elementFormDefault="qualified">'
+              '<xs:include schemaLocation="si2.xsd"/><xs:import namespace="u5" schemaLocation="sm.xsd"/>'
+              '<xs:element name="r"><xs:complexType><xs:sequence><xs:element ref="t:item"/><xs:element ref="m:ext"/>'
+              '</xs:sequence></xs:complexType></xs:element></xs:schema>',
+    "si2.xsd": XS_HEAD + 'targetNamespace="u4" elementFormDefault="qualified"><xs:element name="item" type="xs:int"/></xs:schema>',
+    "sm.xsd": XS_HEAD + 'targetNamespace="u5" elementFormDefault="qualified"><xs:element name="ext" type="xs:string"/></xs:schema>',
     "sl.xsd": XS_HEAD + '><xs:element name="a"><xs:complexType><xs:sequence><xs:any processContents="lax" maxOccurs="unbounded"/>'
               '</xs:sequence></xs:complexType></xs:element></xs:schema>',
 }
@@ -117,6 +127,8 @@ V11_DOCS = {"v11", "v11b"}
 # documents with elements that are not declared in the schema they are validated against (trigger of F15u)
 UNDECL_DOCS = {"slax1", "slax2", "sbad1", "sbadn", "snohint", "nnohint", "nnohintbad"}
 SCHEMA_DOCS = [d for d in DOC_IDS if d.startswith("s")]
+FAMILIES = [("s1.xsd", ["sv1", "sbad1"]), ("s2.xsd", ["sv2", "sbad2"]), ("sn.xsd", ["svn", "sbadn"]),
+            ("si.xsd", ["sinc", "sincbad", "sinc2"])]
 FEATURES = [("val", 3), ("ns", 2), ("schema", 2), ("skipdtd", 2), ("loaddtd", 2), ("exitfatal", 2), ("vcfatal", 2),
             ("fullcheck", 2), ("ic", 2), ("cache", 2), ("usecache", 2), ("disallowdtd", 2), ("igncached", 2),
             ("loadschema", 2), ("multimport", 2), ("srcofs", 2), ("entrefs", 2), ("ignws", 2)]
@@ -130,8 +142,19 @@ def hx(s):
     return b.hex().upper() if b else "-"
 
 
+WORKDIR = os.path.join(V.VERIF, "work", "C15", str(os.getpid()))
+
+
+def write_workdir():
+    """the external DTDs / schemas also exist as files, for the histories that run without entity resolver"""
+    os.makedirs(WORKDIR, exist_ok=True)
+    for k, v in EXTS.items():
+        with open(os.path.join(WORKDIR, k), "w") as f:
+            f.write(v)
+
+
 def preamble():
-    return ["D %s %s%s" % (k, hx(DOCS[k]), " u" if k in UNDECL_DOCS else "") for k in DOC_IDS] + ["X %s %s" % (k, hx(EXTS[k])) for k in sorted(EXTS)]
+    return ["W " + WORKDIR] + ["D %s %s%s" % (k, hx(DOCS[k]), " u" if k in UNDECL_DOCS else "") for k in DOC_IDS] + ["X %s %s" % (k, hx(EXTS[k])) for k in sorted(EXTS)]
 
 
 class Runner:
@@ -182,8 +205,8 @@ def gen_history(rng, api, thorough):
             f, k = rng.choice(FEATURES)
             v = rng.randrange(k)
             ops.append("s:%s:%d" % (f, v))
-            if f in ("cache", "usecache") and v:
-                caching = True
+            if f == "cache" and v:
+                caching = True      # only a non-empty pool can legitimately change a later result (then: F:doc:r)
         elif r < 0.86:
             ops.append("us:%s" % rng.choice(SCANNERS))
         elif r < 0.90:
@@ -206,6 +229,37 @@ def gen_history(rng, api, thorough):
         fin = rng.choice(DOC_IDS)
     tail = ":r" if (caching or rng.random() < 0.3) else ""
     return "H %s %s %s F:%s%s" % (api, sc, " ".join(ops), fin, tail)
+
+
+def gen_cache_cross(rng, thorough):
+    """full cross product {cacheGrammarFromParse} x {useCachedGrammarInParse} x {grammar preloaded or not} x {entity resolver or
+    files} x {pool locked or not} over schema families (documents sharing one schema, incl. include/import chains), the same
+    document parsed 2-3 times or different documents of the family, IG and SG, all four APIs.  The final result is compared
+    with a fresh parser modulo entity-resolution events (F:doc:t): a cached grammar must be transparent."""
+    out = []
+    for api in APIS:
+        for sc in ("IG", "SG"):
+            for cache in (0, 1):
+                for use in (0, 1):
+                    for pre in (0, 1):
+                        for res in (1, 0):
+                            for lock in ((0, 1) if (cache or pre) else (0,)):
+                                for g, docs in FAMILIES:
+                                    cfg = ["s:ns:1", "s:schema:1", "s:val:%d" % rng.choice([1, 1, 2])]
+                                    if not res:
+                                        cfg.append("s:resolver:0")
+                                    mid = []
+                                    if pre:
+                                        mid.append("lg:%s:s:1" % g)
+                                    if lock:
+                                        mid.append("lk")
+                                    mid += ["s:cache:%d" % cache, "s:usecache:%d" % use]
+                                    pats = [[docs[0]] * rng.choice([1, 2]), [rng.choice(docs) for _ in range(rng.randrange(1, 4))]]
+                                    for k, pat in enumerate(pats):
+                                        fin = pat[0] if k == 0 else rng.choice(docs)
+                                        ops = cfg + mid + ["p:%s" % d for d in pat]
+                                        out.append(("cross-%s-%s" % (api, sc), "H %s %s %s F:%s:t" % (api, sc, " ".join(ops), fin)))
+    return out
 
 
 POOL_OPS = ["pcache", "porphan", "pget", "rput", "rget", "rorphan"]
@@ -290,6 +344,22 @@ def shrink(xh, line):
     return " ".join(head + ops + [fin])
 
 
+def shrink_crash(xh, line):
+    """drop operations while the harness process still dies on the history"""
+    head, ops, fin = split_hist(line)
+    changed = True
+    while changed and ops:
+        changed = False
+        for i in range(len(ops)):
+            c = ops[:i] + ops[i + 1:]
+            rc, o, _ = xh.run([" ".join(head + c + [fin])])
+            if rc != 0 and not o:
+                ops = c
+                changed = True
+                break
+    return " ".join(head + ops + [fin])
+
+
 def run(ctx):
     t0 = time.time()
     thorough = ctx.tier == "thorough"
@@ -313,10 +383,11 @@ def run(ctx):
         ctx.violation("translator", {"what": "T-scan can no longer read the scanner classes / reset functions",
                                      "error": repr(e)}, no_input=True)
         return
-    nmem = sum(len(v) for v in side.values())
-    nreset = sum(1 for v in side.values() for r in v if r["reset"] != "no")
+    cache_uses = side.pop("cache_list_uses", [])
+    nmem = sum(len(v) for v in side.values()) + len(cache_uses)
     ctx.coverage["inventory"] = {c: {"members": len(v), "touched_by_reset": sum(1 for r in v if r["reset"] != "no")}
                                  for c, v in side.items()}
+    ctx.coverage["cache_list_uses"] = cache_uses
     # ---- prove
     ok, out, failed = ctx.prove(["Base", "Gen", "C15"],
                                 ["theories/C15/Properties_C15.vo", "theories/C15/Extract_C15.vo"],
@@ -328,6 +399,9 @@ def run(ctx):
     if not os.path.exists(os.path.join(V.VERIF, "ocaml", "C15", "gen_c15.ml")):
         ctx.violation("obligation", {"what": "model does not extract", "output": out[-3000:]}, no_input=True)
         return
+    write_workdir()
+    import atexit, shutil
+    atexit.register(lambda: shutil.rmtree(WORKDIR, ignore_errors=True))
     xm = Runner(ctx.ocaml("C15", ["gen_c15"]))
     xh = Runner(ctx.harness("C15"))
 
@@ -386,6 +460,7 @@ def run(ctx):
     if offenders or proof_broken:
         # refuter of the generated obligation: ALL two-document histories, on the scanners the offenders name
         scs = sorted({o.split(":")[0][:2] for o in offenders if o.split(":")[0][:2] in SCANNERS}) or SCANNERS
+        # (offenders of T15_cache_lists are refuted by the cache cross product below, which is always run)
         k = 0
         for a in DOC_IDS:
             for b in DOC_IDS:
@@ -399,6 +474,7 @@ def run(ctx):
             api = APIS[k % 4]
             cases.append(("exc-" + api, "H %s IG s:val:1 s:ns:1 s:schema:1 px:%s:%d F:dv2" % (api, d, k)))
             cases.append(("prog-" + api, "H %s IG s:val:1 s:ns:1 s:schema:1 pn:%s:%d F:dbad3" % (api, d, k - 1)))
+    cases += gen_cache_cross(rng, thorough)
     # locked pool: parses and loads that would add grammars
     for api in APIS:
         for sc in ("IG", "SG"):
@@ -441,8 +517,10 @@ def run(ctx):
                                       "grammar, parsing a document with an external DTD subset and then another document "
                                       "crashes in GrammarResolver::reset (DTDGrammar destroyed twice) (reproduced by `%s`)" % req)
             else:
-                ctx.violation("harness-crash", {"what": "the library crashed while executing this history (request = the line "
-                                                        "being processed)", "rc": rc1, "stderr": err1[-2000:], "request": req})
+                small = shrink_crash(xh, req) if req.startswith("H ") else req
+                ctx.violation("history-crash", {"what": "the library crashes (memory error) while executing this history on one "
+                                                        "parser object; request = shrunk history, run in a child process",
+                                                "rc": rc1, "stderr": err1[-2000:], "request": small, "original_request": req})
             if crashes > 8:
                 return
     rc2, model, err2 = xm.run(lines, timeout=3000)
@@ -450,6 +528,20 @@ def run(ctx):
         ctx.violation("model-crash", {"what": "model driver crashed", "stderr": err2[-2000:]}, no_input=True)
         return
 
+    # batch pre-pass: differing histories whose first candidate finding explains them (difference gone once its trigger is
+    # removed) are settled with ONE extra harness run for all of them
+    pend = []
+    for (kind, req), i, m in zip(cases, impl, model):
+        if req[0] == "H" and i.startswith("diff"):
+            c = [f for f in candidates(req, m.strip()) if ctx.find_known(f)]
+            if c:
+                pend.append((req, c[0], neutralise(req, c[0])))
+    batch_known = {}
+    if pend:
+        _, no, _ = xh.run([p[2] for p in pend], timeout=3000)
+        for (req, fid, _n), o in zip(pend, no):
+            if o.startswith("same"):
+                batch_known[req] = fid
     kinds = {}
     verdicts = {}
     known_seen = {}
@@ -486,7 +578,8 @@ def run(ctx):
         if v == "crash":
             continue            # handled when it happened
         if v in ("poolchanged", "adoptchanged", "harness-exception", "bad-request"):
-            ctx.violation(v, {"request": req, "impl": i[:3000], "what": {
+            small = shrink(xh, req) if v in ("poolchanged", "adoptchanged") and req.startswith("H ") else req
+            ctx.violation(v, {"request": small, "original_request": req, "impl": i[:3000], "what": {
                 "poolchanged": "the grammar enumerator of a LOCKED pool changed",
                 "adoptchanged": "a previously adopted document changed"}.get(v, "harness could not run the request")})
             unexplained += 1
@@ -505,7 +598,10 @@ def run(ctx):
         # difference disappears when the trigger of that finding is taken out of the history; otherwise shrink
         req2 = req
         done = False
-        for fid in attribute_all(req, m):
+        if req in batch_known:
+            known_seen.setdefault(batch_known[req], req)
+            continue
+        for fid in candidates(req, m):
             if not ctx.find_known(fid):
                 continue
             neutral = neutralise(req2, fid)
@@ -554,6 +650,9 @@ def run(ctx):
         "F15s": "SGXMLScanner does not find a preloaded NO-namespace schema grammar (loadGrammar + useCachedGrammarInParse) "
                 "for the root element of an instance without schema-location hint: ElementNotDefined, while the same grammar "
                 "given inline (noNamespaceSchemaLocation) or preloaded into IGXMLScanner validates the document",
+        "F15k": "cacheGrammarFromParse with a LOCKED grammar pool: the pool refuses the grammar (it stays in the per-parse bucket) "
+                "but its SchemaInfo is stored in the persistent fCachedSchemaInfoList, so the next parse treats the schema "
+                "as already seen, skips loading it and leaves the document unvalidated (no defaults, no type information)",
         "F22": "XMLSynchronizedStringPool::getId(unknown string) returns the constant pool's string count (the id of "
                "another string) instead of 0",
     }
@@ -602,6 +701,33 @@ def f22_class(req, impl, model):
     return True
 
 
+def f15k_class(req):
+    """cacheGrammarFromParse switched on while the pool is locked, and a document that loads a schema by a location hint"""
+    head, ops, fin = split_hist(req)
+    locked = False
+    caching = False
+    for o in ops:
+        if o == "lk":
+            locked = True
+        elif o == "ul":
+            locked = False
+        elif o == "s:cache:1":
+            caching = True
+        elif o == "s:cache:0":
+            caching = False
+        elif o.split(":")[0] in ("p", "px", "pn", "pa") and locked and caching and o.split(":")[1] in SCHEMA_DOCS:
+            return True
+    return False
+
+
+def candidates(req, model_answer):
+    """finding ids that may explain a differing history: by the model's differing members, or by a finding's own predicate"""
+    c = attribute_all(req, model_answer)
+    if f15k_class(req):
+        c.append("F15k")
+    return c
+
+
 def attribute_all(req, model_answer):
     """all finding ids by which the model explains a differing history (only if every differing member is an exception)"""
     if not model_answer.startswith("diff") or " " not in model_answer:
@@ -645,6 +771,8 @@ def neutralise(req, fid):
         ops = [o for o in ops if not o.startswith("us:")]
     elif fid == "F15p":
         ops = [o for o in ops if not o.startswith("pa:")]
+    elif fid == "F15k":
+        ops = [o for o in ops if o != "lk"]
     elif fid == "F15u":
         ops = [o for o in ops if doc_of(o) not in UNDECL_DOCS]
     return " ".join(head + ops + [fin])
